@@ -155,17 +155,17 @@ def h_inbound(I, state, kind, digits):
     return [expect, wire_summary(s["frames"]), c.log.exceptions]
 
 
-def h_after_resend(I, n, digits):
+def h_after_resend(I, n, digits, role):
     """n sends (application / heartbeat, symbolic), an inbound ResendRequest for a symbolic range of
     them, then a new send: it must carry the number following the last new message, and the stored
     counter must follow."""
     install_loop()
-    first = I.int("next_out", 1, 10**digits - 1)
-    c = mkconn(CS.ACTIVE, ROLES[I.choice("role", 2)], 5, first)
+    first = I.int("next_out", 1, (6 if digits == 1 else 10**digits - 1))
+    c = mkconn(CS.ACTIVE, ROLES[role], 5, first)
     w = c._socket_writer
     for k in range(n):
         if I.bool(f"app{k}"):
-            run(c.send_msg(build_out(I, "app", "D", k)))
+            run(c.send_msg(FIXMessage("D", {11: "o%d" % k})))
         else:
             run(c.send_msg(FIXMessage(FMsg.HEARTBEAT)))
     nout = first + n
@@ -181,7 +181,7 @@ def h_after_resend(I, n, digits):
     I.check(stored == nout, "stored next outbound number differs from the live one after servicing a ResendRequest")
     I.check(new_frames(w.frames[nfr:]) == [], "servicing a ResendRequest sent a new (non-retransmitted) message")
     nfr = len(w.frames)
-    run(c.send_msg(build_out(I, "app", "D", "z")))
+    run(c.send_msg(FIXMessage("D", {11: "new"})))
     d = frame_fields(w.frames[nfr])
     I.check(int(d["34"]) == nout, "new message after a resend does not carry last sent + 1")
     stored, rows = journal_view(c)
@@ -208,9 +208,10 @@ def cells(tier):
     out.append(Cell("multi", lambda I: h_multi(I, 2 if quick else 3, 2 if quick else 4),
                     dict(sends=2 if quick else 3, kinds=["app", "heartbeat", "send_test_req"], state="ACTIVE"), goals=["sent", "refused"]))
     for n in ((2,) if quick else (1, 2, 3)):
-        out.append(Cell(f"after-resend/{n}", (lambda I, n=n: h_after_resend(I, n, 1 if quick else 2)),
-                        dict(sends=n, kinds="application / heartbeat (symbolic per send)", begin_seq_no="symbolic, below next_out",
-                             counters="symbolic, 1 digit" if quick else "symbolic, 2 digits"), goals=["resent"], budget_s=1800))
+      for role in (0, 1):
+        out.append(Cell(f"after-resend/{n}/{ROLES[role].name}", (lambda I, n=n, role=role: h_after_resend(I, n, 1 if quick else 2, role)),
+                        dict(sends=n, role=ROLES[role].name, kinds="application / heartbeat (symbolic per send)", begin_seq_no="symbolic, below next_out",
+                             counters="symbolic in [1,6]" if quick else "symbolic, 2 digits"), goals=["resent"], budget_s=1800))
     for sname, st in c04.STATES.items():
         for kind in (("testrequest", "app", "resendrequest") if quick else KINDS):
             out.append(Cell(f"inbound/{sname}/{kind}", (lambda I, st=st, kind=kind: h_inbound(I, st, kind, 1 if quick else 2)),
